@@ -94,7 +94,7 @@ func c15Run(w *mc.W, h c15History, observe bool) (stateKey string, nslots int) {
 		for step, op := range h.Ops {
 			w.Trans()
 			var s *c15Slot
-			if op.Op != "master" && op.Op != "fromstring" && op.Op != "newext" {
+			if op.Op != "master" && op.Op != "fromstring" && op.Op != "newext" && op.Op != "newexttab" {
 				if op.Slot >= len(slots) || slots[op.Slot].zeroed {
 					executable = false
 					return
@@ -140,6 +140,22 @@ func c15Run(w *mc.W, h c15History, observe bool) (stateKey string, nslots int) {
 				k := hdkeychain.NewExtendedKey(append([]byte{}, ref.Nets[0].HDPriv[:]...), kb, append([]byte{}, x.ChainCode...),
 					[]byte{0, 0, 0, 0}, 0, 0, true)
 				slots = append(slots, &c15Slot{k: k, x: x, rkey: rk, net: "mainnet", prov: "newext(B)"})
+			case "newexttab":
+				// two PUBLIC keys whose key bytes are the two halves of ONE 66-byte table and whose chain codes
+				// are the two halves of one 64-byte blob (NewExtendedKey keeps the slices it is given): a
+				// derivation from one must not write into the other
+				pa, pb := ref.SecBaseMulFast(big.NewInt(463)), ref.SecBaseMulFast(big.NewInt(9001))
+				table := append(append(make([]byte, 0, 66), pa.Compressed()...), pb.Compressed()...)
+				blob := make([]byte, 64)
+				for i := range blob {
+					blob[i] = byte(0x30 + i)
+				}
+				for t, pt := range []ref.Point{pa, pb} {
+					key, cc := table[33*t:33*t+33], blob[32*t:32*t+32]
+					k := hdkeychain.NewExtendedKey(append([]byte{}, ref.Nets[0].HDPub[:]...), key, cc, []byte{9, 8, 7, 6}, 1, 5, false)
+					x := &ref.XKey{Private: false, P: pt, ChainCode: append([]byte{}, cc...), Depth: 1, ParentFP: []byte{9, 8, 7, 6}, ChildNum: 5}
+					slots = append(slots, &c15Slot{k: k, x: x, rkey: fmt.Sprintf("tab%d", t), net: "mainnet", prov: fmt.Sprintf("newexttab(%d)", t)})
+				}
 			case "child":
 				var idx uint32
 				switch op.Arg {
@@ -149,6 +165,11 @@ func c15Run(w *mc.W, h c15History, observe bool) (stateKey string, nslots int) {
 					idx = c15ShortIdx()[0]
 				case "s2":
 					idx = c15ShortIdx()[1]
+				default:
+					if op.Arg != "" {
+						n, _ := strconv.ParseUint(op.Arg, 0, 32)
+						idx = uint32(n)
+					}
 				}
 				ck, err := s.k.Child(idx)
 				cx, st, rk := c04RefChild(s.rkey, s.x, idx)
@@ -495,7 +516,17 @@ func runC15(c *mc.Ctx) {
 				longs = append(longs, c15History{Ops: append(append([]c15Op{}, base...), tail...)})
 			}
 		}
-		c.Space("long histories: address scans of 300 / 5000 (70000) derivations around the pool operations", int64(len(longs)))
+		// keys built by NewExtendedKey over sub-slices of shared caller buffers
+		for _, tail := range [][]c15Op{
+			{{Op: "child", Slot: 0, Arg: "0x01020304"}},
+			{{Op: "child", Slot: 1, Arg: "7"}, {Op: "child", Slot: 0, Arg: "0x7fffffff"}},
+			{{Op: "scan", Slot: 0, Arg: "40"}, {Op: "child", Slot: 1, Arg: "0"}},
+			{{Op: "child", Slot: 0, Arg: "1"}, {Op: "zero", Slot: 0}},
+			{{Op: "string", Slot: 0}, {Op: "ecpub", Slot: 0}, {Op: "address", Slot: 0}, {Op: "child", Slot: 0, Arg: "2"}},
+		} {
+			longs = append(longs, c15History{Ops: append([]c15Op{{Op: "newexttab"}}, tail...)})
+		}
+		c.Space("long histories: address scans of 300 / 5000 (70000) derivations around the pool operations; keys over sub-slices of shared caller buffers", int64(len(longs)))
 		// one after the other: what counts is how many derivations the process has made
 		w := c.Worker()
 		for _, h := range longs {
